@@ -1,6 +1,7 @@
 """C18 -- keyed shards protect chunk hashes, keep dedup working, and expire."""
 import hashlib
 
+from . import mgrgen
 from . import shardgen as sg
 from .base import BaseProp
 from .c05 import Prop as C05
@@ -8,7 +9,7 @@ from .c05 import Prop as C05
 
 class Prop(BaseProp):
     id = "C18"
-    groups = ["HashConsts", "ShardLayout", "ShardFacts"]
+    groups = ["HashConsts", "ShardLayout", "ShardFacts", "ManagerFacts"]
     prop_file = "Props/C18.v"
     trusted_base = [
         "HMAC = keyed BLAKE3 (Gallina implementation tied to the crate by the C06 correspondence); no collision-freeness assumed: the leak theorem concludes with an explicit collision",
@@ -16,7 +17,7 @@ class Prop(BaseProp):
     ]
     assumptions = [
         "exported bytes are compared with the model's after zeroing the two timestamp fields",
-        "manager-level query equivalence (original vs exported shard) is checked by the oracle on real ShardFileManagers; the Coq statement is at the level of the direct query (C05)",
+        "manager-level query equivalence (original vs exported shard) is checked by the oracle on real ShardFileManagers; the manager's keyed collections are modelled in Model/Manager.v (C18_manager_answers_under_the_collection_key, C18_keyed_collection_chunk_found: below the cap, no two chunk hashes of the collection sharing 64 bits), tied to the code by stream mgr and the ManagerFacts pins",
     ]
     rule = ("case = shard (incl. segments whose cas_flags use the high bits, files with all four flag combinations, empty records) x exports under keys (zero key included) x all 8 include-flag "
             "triples, each export compared byte-for-byte with the model (timestamps zeroed) and characterised by the oracle; dedup queries through managers holding the original resp. the export; "
@@ -91,10 +92,13 @@ class Prop(BaseProp):
             ops.append("qdk %s" % ",".join(x[0].hex() for x in target["chunks"][j:]))
             ops.append("qdk %s" % th.hex())
             mcases.append({"id": "pfx%d" % i, "text": " | ".join(ops), "meta": {"nc": len(cas) + 1, "exports": 2, "mix": True}})
+        # the manager's keyed collections against its model (first three configurations: registered files only)
         return [{"name": "c18", "cases": cases, "timeout": 900, "model_may_be_silent": True},
-                {"name": "c18m", "cases": mcases, "model": False, "timeout": 600}]
+                {"name": "c18m", "cases": mcases, "model": False, "timeout": 600}] + mgrgen.streams(rng, tier)[:3]
 
     def compare(self, stream, case, io, mo):
+        if stream == "mgr":
+            return BaseProp.compare(self, stream, case, io, mo)
         if stream != "c18":
             return None
         a = [o for o in io if o.startswith("exp") and " qd" not in o and not o.startswith("expire")]
@@ -106,12 +110,16 @@ class Prop(BaseProp):
         return None
 
     def nontrivial(self, stream, case, io):
+        if stream == "mgr":
+            return mgrgen.nontrivial(case, io)
         m = case["meta"]
         if m.get("expire") or (m["nc"] and m["exports"]):
             return hashlib.sha256(case["text"].encode()).hexdigest()
         return None
 
     def count(self, counters, stream, case, io):
+        if stream == "mgr":
+            return mgrgen.count(counters, case, io)
         for o in io:
             if o.startswith("expire"):
                 counters["expiry_" + o.replace(" ", "_")] = counters.get("expiry_" + o.replace(" ", "_"), 0) + 1
